@@ -5,7 +5,8 @@ cd /verif
 NAMES=${@:-$(ls seeded)}
 rc=0
 for s in $NAMES; do
-  c=${s%-*}
+  # the check that reports the change: the first word of caught_by in its meta.json (usually the property's own check)
+  c=$(python3 -c "import json,re,sys; m=json.load(open('/verif/seeded/$s/meta.json')).get('caught_by',''); r=re.match(r'(C\d\d)\b', m); print(r.group(1) if r else '${s%-*}')")
   D=/tmp/seed/$s
   rm -rf $D; mkdir -p $D
   git -C /repo worktree add --detach $D/repo HEAD >/dev/null 2>&1 || { echo "$s: worktree failed"; rc=1; continue; }
